@@ -13,6 +13,7 @@ from .. import g2oio
 from .. import gbuild as GB
 from .. import impl as I
 from ..ref import g2o as RG
+from ..ref import geom as G
 from ..runner import Acc
 
 ID = "C13"
@@ -26,7 +27,7 @@ META = {
     "Oracles: structure, every number bitwise (4 ulp for wrapped angles / renormalised measurement quaternions), chi2, and the file tokens re-parsed by the reference tokenizer. "
     "non-trivial = graph has at least one edge or an extreme scalar",
     "assumptions": ["real temp files in a private mkdtemp directory", "an SE(3) landmark edge whose offset is not registered in the graph's parameter table is outside the property's domain", "custom edges (no to_g2o) are outside the property's domain"],
-    "required_classes": ["edit_between_exports", "slots2d", "slots3d", "quat_slot", "w_negative_measurement", "shape", "ids_special", "vertex_order_permuted", "omega", "refuse", "cycles", "offset_rotated", "shared_param", "mixed_world", "cross_term_information"],
+    "required_classes": ["edit_between_exports", "slots2d", "slots3d", "quat_slot", "w_negative_measurement", "shape", "ids_special", "vertex_order_permuted", "omega", "refuse", "refuse_unregistered", "cycles", "offset_rotated", "shared_param", "mixed_world", "cross_term_information"],
     "bounds": {"quick": "all slot substitutions; shapes with <=3 edges; 3 cycles", "thorough": "same + pairs of extreme scalars on vertex slots; 5 cycles"},
 }
 
@@ -271,6 +272,11 @@ def run_chunk(chunk, tier, seed):
                 for pos in range(3):
                     for ei in (2, 3):
                         _do(acc, {"t": "refuse", "which": "se2off", "off": SE2_OFFSETS[oi], "pos": pos, "edge": ei}, ctx)
+            # an SE(3) landmark edge whose offset is NOT among the graph's registered offset parameters
+            for ei in (2, 3):
+                for pos in range(3):
+                    for reg in ("none", "other_id"):
+                        _do(acc, {"t": "refuse", "which": "se3unreg", "pos": pos, "edge": ei, "reg": reg}, ctx)
     finally:
         shutil.rmtree(tmp, ignore_errors=True)
     return acc
@@ -380,6 +386,26 @@ def _desc_of_spec_graph(g):
     return g2oio.describe_graph(g)
 
 
+FOREIGN = (
+    "PARAMS_SE3OFFSET 3 9.0 8.0 7.0 0.0 0.0 0.0 1.0\n"
+    "PARAMS_SE3OFFSET 5 -1.0 -2.0 -3.0 0.0 0.0 1.0 0.0\n"
+    "PARAMS_SE2OFFSET 0 0.0 0.0 0.0\n"
+    "VERTEX_SE3:QUAT 0 0.0 0.0 0.0 0.0 0.0 0.0 1.0\n"
+    "VERTEX_TRACKXYZ 1 1.0 2.0 3.0\n"
+    "EDGE_SE3_TRACKXYZ 0 1 3 0.1 0.2 0.3 1.0 0.0 0.0 1.0 0.0 1.0\n"
+    "EDGE_SE3_TRACKXYZ 0 1 5 0.3 0.2 0.1 1.0 0.0 0.0 1.0 0.0 1.0\n"
+)
+
+
+def _foreign_load(ctx):
+    """another, unrelated file (same offset-parameter ids, other values) is imported in between: graphs already loaded must not notice."""
+    fp = os.path.join(ctx["tmp"], "foreign.g2o")
+    if not os.path.exists(fp):
+        with open(fp, "w") as f:
+            f.write(FOREIGN)
+    return I.Graph.from_g2o(fp)
+
+
 def _eval_roundtrip(case, ctx):
     msgs = []
     spec = spec_of(case)
@@ -434,6 +460,7 @@ def _eval_roundtrip(case, ctx):
             classes.append("cycles")
         nxt = I.Graph.from_g2o(path)
         ops += 1
+        keep_alive = _foreign_load(ctx)
         got = g2oio.describe_graph(nxt)
         m3 = []
         g2oio.compare(got, _orig_for_reader(orig), m3, quat_norm_est=True)
@@ -482,8 +509,43 @@ def _orig_for_reader(orig):
     return _orig_for_writer(orig)
 
 
+def _eval_unregistered(case, ctx):
+    """the file can carry an SE(3) landmark offset only through a registered PARAMS_SE3OFFSET of the edge's offset id.  If that
+    parameter is missing (or says something else) the cycle has to fail with an error somewhere, or give back the same graph."""
+    b = base_spec("3d")
+    e = copy.deepcopy(b["edges"][case["edge"]])
+    es = [b["edges"][0], b["edges"][1]]
+    es.insert(case["pos"], e)
+    if case["reg"] == "none":
+        params = []
+    else:
+        params = [dict(p, id=p["id"] + 10) for p in b["params"]]
+    spec = {"vertices": b["vertices"], "edges": es, "params": params}
+    g, verts, edges = build(spec)
+    want = g2oio.describe_graph(g)
+    chi0 = float(g.calc_chi2())
+    path = os.path.join(ctx["tmp"], "u.g2o")
+    try:
+        g.to_g2o(path)
+        back_g = I.Graph.from_g2o(path)
+    except Exception as ex:
+        return [], {"classes": ["refuse", "refuse_unregistered"], "outcome": "refused:" + type(ex).__name__, "ops": 2}
+    msgs = []
+    back = g2oio.describe_graph(back_g)
+    for be, we in zip(back["edges"], want["edges"]):
+        if be.get("type") == "lm" and we.get("type") == "lm":
+            if G.phys_diff("SE3", list(be["off"]), list(we["off"])) > 1e-12:
+                msgs.append("SE(3) landmark edge with an offset that is not a registered parameter (%s): export + import succeeded but the offset came back as %r instead of %r" % (case["reg"], be["off"], we["off"]))
+    chi1 = float(back_g.calc_chi2())
+    if not abs(chi1 - chi0) <= 1e-9 * (1.0 + abs(chi0)):
+        msgs.append("SE(3) landmark edge with an offset that is not a registered parameter (%s): chi2 %.17g after the cycle, %.17g before" % (case["reg"], chi1, chi0))
+    return msgs, {"classes": ["refuse", "refuse_unregistered"], "outcome": "written", "ops": 2}
+
+
 def _eval_refuse(case, ctx):
     msgs = []
+    if case["which"] == "se3unreg":
+        return _eval_unregistered(case, ctx)
     b = base_spec("2d")
     if case["which"] == "se2off":
         e = copy.deepcopy(b["edges"][case["edge"]])
